@@ -94,12 +94,13 @@ var (
 )
 
 type c16result struct {
-	held      int // notifications held back on an abandoned connection
-	windows   int // transactions committed inside a monitor window
-	c2s, s2c  int // message counts on the first connection (fault-free run)
-	findings  []finding
-	connected bool
-	log       []string
+	held        int // notifications held back on an abandoned connection
+	appConnects int // outages ended by the application calling Connect
+	windows     int // transactions committed inside a monitor window
+	c2s, s2c    int // message counts on the first connection (fault-free run)
+	findings    []finding
+	connected   bool
+	log         []string
 }
 
 // c16Session runs one session with one fault script.
@@ -144,6 +145,9 @@ func c16Session(r *ev.Run, m *dyn.Model, shape c16shape, f c16fault, batch, idx 
 	opts := []client.Option{client.WithEndpoint("unix:" + px.Listen), client.WithLogger(&l)}
 	if f.kind == "blackhole" {
 		opts = append(opts, client.WithInactivityCheck(150*time.Millisecond, 2*time.Second, backoff.NewConstantBackOff(10*time.Millisecond)))
+	} else if f.kind == "application-connects-during-outage" {
+		// a back-off long enough for the application's own Connect calls to fall into the pauses
+		opts = append(opts, client.WithReconnect(2*time.Second, backoff.NewConstantBackOff(400*time.Millisecond)))
 	} else {
 		opts = append(opts, client.WithReconnect(2*time.Second, backoff.NewConstantBackOff(10*time.Millisecond)))
 	}
@@ -369,6 +373,44 @@ func c16Session(r *ev.Run, m *dyn.Model, shape c16shape, f c16fault, batch, idx 
 		time.Sleep(50 * time.Millisecond)
 	}
 
+	if f.kind == "application-connects-during-outage" {
+		// The connection is lost and the peer turns connections away. While the client's own
+		// retry loop pauses between attempts, the application calls Connect itself: f.k times
+		// in vain, then, the peer accepting again, with success. Whoever sets up the next
+		// connection must restart the monitors; changes committed meanwhile must arrive.
+		before := px.Accepted()
+		px.Refuse(1 << 20)
+		px.CutAll()
+		for i := 0; i < 1000 && px.Accepted() == before; i++ {
+			time.Sleep(5 * time.Millisecond) // the retry loop's first attempt (refused)
+		}
+		pre, _ = m.Snapshot(srv.DB)
+		for tn := range monitored {
+			us := dyn.SortedUUIDs(pre.T[tn])
+			if len(us) > 1 {
+				wtxn([]ref.Op{{Kind: "delete", Table: tn, Where: byUUID(us[0])}, {Kind: "update", Table: tn, Where: byUUID(us[1]), Row: ref.Row{"n": ref.Set(ref.Int(4242))}}})
+			}
+			wtxn(rowOps(tn, 1))
+		}
+		for i := 0; i < f.k; i++ {
+			cctx, ccancel := context.WithTimeout(ctx, 2*time.Second)
+			if err := cl.Connect(cctx); err == nil {
+				res.findings = append(res.findings, finding{"C16/connect-succeeds-while-refused", "Connect returned nil while the peer refuses every connection"})
+			}
+			ccancel()
+		}
+		px.Refuse(0)
+		for i := 0; i < 400; i++ {
+			cctx, ccancel := context.WithTimeout(ctx, 2*time.Second)
+			err := cl.Connect(cctx)
+			ccancel()
+			if err == nil || cl.Connected() {
+				break
+			}
+			time.Sleep(5 * time.Millisecond)
+		}
+		res.appConnects = 1
+	}
 	// bounded progress: connected again, or no new attempt for a long quiet period
 	lastAccepted, quiet := px.Accepted(), 0
 	for {
@@ -519,6 +561,9 @@ func c16Child(r *ev.Run, batch int) {
 		for k := 4; k <= base.s2c; k += 5 {
 			faults = append(faults, c16fault{kind: "blackhole", dir: proxy.S2C, k: k})
 		}
+		for k := 0; k <= 2; k++ {
+			faults = append(faults, c16fault{kind: "application-connects-during-outage", dir: proxy.C2S, k: k})
+		}
 		for fi, f := range faults {
 			idx++
 			if idx%nb != batch {
@@ -531,6 +576,7 @@ func c16Child(r *ev.Run, batch int) {
 			r.Count("sessions."+f.kind, 1)
 			r.Count("transactions-committed-inside-a-monitor-window", res.windows)
 			r.Count("notifications-held-back-on-an-abandoned-connection", res.held)
+			r.Count("outages-ended-by-the-application-connecting", res.appConnects)
 			for _, fd := range res.findings {
 				n := len(res.log)
 				from := 0
